@@ -1209,4 +1209,120 @@ theorem rel_up_empty_label {h : Hist} {o : LoadOpts} {m : LMap} (hl : load h o =
       rw [hk]
       exact (stepsDown_iff h k i b).mpr (pathN_congr (fun j => downOf_eq_downParents hl hu j) k i b hrev)
 
+/-! ### completeness of the partial lookup: a unique prefix resolves -/
+
+/-- label keys are never revision ids (`_map_branch_labels` refuses a label that is already a key) -/
+theorem mapBranchLabels_keys_fresh (ids : List Id) : ∀ (revs : List Rev) (acc out : List (String × Id)),
+    (∀ e ∈ acc, e.1 ∉ ids) → mapBranchLabels ids revs acc = .ok out → ∀ e ∈ out, e.1 ∉ ids := by
+  intro revs
+  induction revs with
+  | nil => intro acc out hacc h; simp [mapBranchLabels] at h; subst h; exact hacc
+  | cons r rest ih =>
+    intro acc out hacc h
+    simp only [mapBranchLabels] at h
+    split at h
+    · simp at h
+    · rename_i acc' hadd
+      refine ih acc' out ?_ h
+      have key : ∀ (ls : List String) (a a' : List (String × Id)), (∀ e ∈ a, e.1 ∉ ids) →
+          mapBranchLabels.addLabels ids r ls a = .ok a' → ∀ e ∈ a', e.1 ∉ ids := by
+        intro ls
+        induction ls with
+        | nil => intro a a' ha h; simp [mapBranchLabels.addLabels] at h; subst h; exact ha
+        | cons l ls ih2 =>
+          intro a a' ha h
+          simp only [mapBranchLabels.addLabels] at h
+          split at h
+          · simp at h
+          · rename_i hcond
+            apply ih2 _ _ _ h
+            intro e he
+            rcases List.mem_append.mp he with h1 | h1
+            · exact ha e h1
+            · simp at h1; subst h1
+              intro hmem
+              exact hcond (Or.inl hmem)
+      exact key _ _ _ hacc hadd
+
+theorem load_labelKeys_fresh {h : Hist} {o : LoadOpts} {m : LMap} (hl : load h o = .ok m) :
+    ∀ e ∈ m.labelKeys, e.1 ∉ m.ids := by
+  obtain ⟨m1, lk, h1, hrevs, hlk, hchk, hdc, hids, _⟩ := load_graph hl
+  obtain ⟨m1', h1', _, hm⟩ := load_ok hl
+  have : m1' = m1 := by rw [h1] at h1'; exact (Except.ok.inj h1').symm
+  subst this
+  obtain ⟨lk', hlk', _, hrevs', hlkeq⟩ := phase1_ok h1
+  obtain ⟨f3, hk3, hn3, hm3⟩ := addBranches_eq (withNorm o m1')
+  have hL : m.labelKeys = m1'.labelKeys := by rw [hm, hm3]; rfl
+  have hids1 : m1'.ids = h.map (·.id) := by
+    simp [LMap.ids, hrevs', phase1Revs, List.map_map, Function.comp_def]
+  intro e he
+  rw [hL, hlkeq] at he
+  rw [hids, hids1]
+  exact mapBranchLabels_keys_fresh (h.map (·.id)) _ [] lk' (by simp) hlk' e he
+
+theorem filter_eq_singleton : ∀ (l : List Id) (x : Id), x ∈ l → l.Nodup → l.filter (fun i => decide (i = x)) = [x]
+  | [], _, hx, _ => by simp at hx
+  | a :: r, x, hx, hnd => by
+    have hnd' := List.nodup_cons.mp hnd
+    by_cases e : a = x
+    · subst e
+      have : r.filter (fun i => decide (i = a)) = [] := by
+        rw [List.filter_eq_nil_iff]; intro y hy; simp; intro e; subst e; exact hnd'.1 hy
+      simp [List.filter_cons, this]
+    · have hxr : x ∈ r := by
+        rcases List.mem_cons.mp hx with h1 | h1
+        · exact absurd h1.symm e
+        · exact h1
+      simp only [List.filter_cons, e, decide_false, Bool.false_eq_true, if_false]
+      exact filter_eq_singleton r x hxr hnd'.2
+
+/-- **A unique prefix resolves** (the converse of `plain_sound`, the half seeded change C01-m broke): in a
+loaded history, a plain identifier that is not a key of the map and is a prefix of exactly one revision id of
+more than three characters resolves to that revision — whether or not the revision carries branch labels. -/
+theorem prefix_unique_resolves {h : Hist} {o : LoadOpts} {m : LMap} (hl : load h o = .ok m)
+    (hu : (h.map (·.id)).Nodup) (hd : ∀ r ∈ h, ∀ d ∈ r.down, d ∈ h.map (·.id))
+    (ident : String) (hp : Plain ident) (hk : m.lookup ident = none)
+    (x : Id) (hx : x ∈ m.ids) (hlen : x.length > 3) (hpre : startsWithL x ident = true)
+    (huniq : ∀ y ∈ m.ids, y.length > 3 → startsWithL y ident = true → y = x) :
+    getRevisions m ident = .ok [some x] := by
+  have L := loaded_of_load hl hu hd
+  have hfresh := load_labelKeys_fresh hl
+  -- the candidate list of the partial lookup is exactly `[x]`
+  have hcands : (m.keys.filter (fun k => k.1.length > 3 && startsWithL k.1 ident && k.2 == k.1)).map (·.1) = [x] := by
+    unfold LMap.keys
+    rw [List.filter_append, List.map_append]
+    have hlab : (m.labelKeys.filter (fun k => k.1.length > 3 && startsWithL k.1 ident && k.2 == k.1)) = [] := by
+      rw [List.filter_eq_nil_iff]
+      intro e he
+      simp only [Bool.and_eq_true, decide_eq_true_eq, beq_iff_eq, not_and]
+      intro _ h21
+      have h2 := load_labelKeys hl e he
+      exact hfresh e he (by rw [← h21]; exact h2)
+    rw [hlab, List.map_nil, List.append_nil, List.filter_map, List.map_map]
+    have hfun : ((fun (x : String × Id) => x.1) ∘ fun (i : Id) => (i, i)) = id := by funext i; rfl
+    rw [hfun, List.map_id]
+    -- a duplicate-free list filtered by a predicate that holds exactly of `x`
+    have hpred : ∀ i ∈ m.ids, ((fun k : String × Id => k.1.length > 3 && startsWithL k.1 ident && k.2 == k.1) ∘ fun i => (i, i)) i = decide (i = x) := by
+      intro i hi
+      simp only [Function.comp, beq_self_eq_true, Bool.and_true]
+      by_cases e : i = x
+      · subst e; simp [hlen, hpre]
+      · simp only [e, decide_false]
+        cases h1 : decide (i.length > 3) <;> cases h2 : startsWithL i ident <;> simp_all
+    rw [List.filter_congr hpred]
+    exact filter_eq_singleton m.ids x hx L.ids_nodup
+  unfold getRevisions resolveFuel
+  simp only [resolveNumber_plain m 11 ident hp, bind, Except.bind, List.mapM_cons, List.mapM_nil, pure, Except.pure,
+    hp.2.2.2.2]
+  have hrev : revisionForIdent m 12 ident none = .ok (some x) := by
+    unfold revisionForIdent
+    simp only [bind, Except.bind, pure, Except.pure, hk, hcands, lookup_id m x hx]
+  simp [hrev]
+
+/-- the hypotheses of `prefix_unique_resolves` on a labelled revision (the shape of seed C01-m) -/
+example : (match load [⟨"abcd12", [], [], ["lib"]⟩, ⟨"ffff00", ["abcd12"], [], []⟩] with
+    | .ok m => (match getRevisions m "abcd" with | .ok [some x] => x == "abcd12" | _ => false) &&
+               (match m.lookup "abcd" with | none => true | some _ => false)
+    | .error _ => false) = true := by decide +kernel
+
 end C16
